@@ -40,6 +40,10 @@ COMMON_SRCS = ["alg/sha256_shani.c", "alg/sha256_sse2.c", "alg/crc32c_sse42.c", 
                "crypto/crypto_aesctr_aesni.c", "util/insecure_memzero.c", "util/warnp.c"]
 DETECT = {"SSE2": "sse2", "SHANI": "shani", "SSSE3": "ssse3", "SSE42": "sse42", "AESNI": "aesni"}
 WHITEBOX = ["h_cpu_sha.c", "h_cpu_crc.c", "h_cpu_aes.c", "h_cpu_ctr.c"]   # #include "sha256.c" etc.
+# black-box mode of h_cpu*.c (notes/blackbox.md): the four files are separate units, public entry points only, the cpusupport
+# configuration of the build decides the path; `force` (pins the private dispatch variables) is removed from the cases, which
+# then run with the natural selection; no process per case (nothing is ever pinned, so nothing needs a reset)
+BB = dict(bb_ok=True, bb_srcs=["alg/sha256.c", "alg/crc32c.c", "crypto/crypto_aes.c", "crypto/crypto_aesctr.c"], bb_strip_ops=("force",))
 
 
 def expected_paths(feats):
@@ -88,8 +92,11 @@ def _run_stream(cmd, cases, tmp, tag, env=None, timeout=None):
         exe = cmd[1][5:]
         if not os.path.exists(exe) and _CTX[0] is not None:          # e.g. --replay: build the reference now
             srcs, cpu, extra = build_args([])
-            vlib.build_harness(_CTX[0], os.path.basename(exe), "h_cpu.c", srcs, cpu=cpu, extra=extra,
-                               ldflags=["-lcrypto"])
+            e, _ = vlib.build_harness(_CTX[0], os.path.basename(exe), "h_cpu.c", srcs, cpu=cpu, extra=extra,
+                                      ldflags=["-lcrypto"])
+            if e is None:       # the white-box units do not compile against this tree: black-box build of the reference
+                vlib.build_harness(_CTX[0], os.path.basename(exe), "h_cpu.c", srcs + BB["bb_srcs"], cpu=cpu,
+                                   extra=extra + ["-DHC_BLACKBOX"], ldflags=["-lcrypto"])
         env = dict(vlib.ASAN_ENV)
         # the reference build answers `path`/`force` with the paths expected of the build under test
         env["HCPU_ECHO_PATHS"] = " ".join(cmd[2:])
@@ -348,7 +355,7 @@ def components(ctx):
                  "against the model's SDM transcription (L2); AES block / short AES-CTR streams judged by the FIPS-197 transcription Model.CpuAesni.Fips; "
                  "L1 = Spec.Sha256 / Spec.Crc32c (/ Model.CpuAesni.Fips for the AES ops); non-trivial = at least one op besides path/force; distinct by hash of the op list"
                  % (name, "+".join(feats) or "-", " ".join(paths)),
-            cpu=cpu, extra=extra, ldflags=["-lcrypto"], classify=classify_for(name)))
+            cpu=cpu, extra=extra, ldflags=["-lcrypto"], classify=classify_for(name), **BB))
         if name == "none":
             continue
         w = 1.0 if "AESNI" in feats else 0.15
@@ -362,7 +369,7 @@ def components(ctx):
                  "4096/8192 bytes, >= 4096 blocks; call partitions alternating < 16 and >= 16 bytes; L2 = bytectr/pblk/buf of struct crypto_aesctr"
                  % (name, "portable build" if AES_REFERENCE != "pmodel" else "pmodel"),
             cpu=cpu, extra=extra, ldflags=["-lcrypto"], classify=classify_for(name),
-            ignore_l2=False))
+            ignore_l2=False, **BB))
     return comps
 
 
@@ -390,6 +397,9 @@ def aesfail_component():
              "FIPS-197 / SP 800-38A output, nothing else; a third of the ops hand the library blocks that are 8 mod 16 aligned; non-trivial = a failure is injected",
         monitor_args=["aesfailmon"], ignore_l2=True, ldflags=["-Wl,--wrap=malloc,--wrap=free", "-lcrypto"],
         extra=[os.path.join(vlib.VERIF, "harness", "h_aesfail_ctr.c")],
+        # black-box mode (notes/blackbox.md): crypto_aes.c / crypto_aesctr.c as separate units; h_aesfail.c then runs every op
+        # in a forked child, which is the fresh dispatch state the white-box build gets by resetting `hwaccel`
+        bb_ok=True, bb_srcs=["crypto/crypto_aes.c", "crypto/crypto_aesctr.c"],
         classify=lambda case, out: ["aesfail:" + ("fail" if o.startswith("fail") else "ct") for o in out])
 
 
@@ -448,9 +458,17 @@ def check(ctx):
                     "harness/h_cpu*.c", "gcc -m{sse2,ssse3,sse4.2,sha,aes} code generation for the intrinsics", "OpenSSL AES_encrypt (software path; reference of the AES family)",
                     "Intel SDM instruction semantics as transcribed (see assumptions)"]
     # compile the seven builds in parallel before the (sequential) standard flow; the flow then hits the cache
+    forced_bb = os.environ.get("VERIF_FORCE_BLACKBOX", "") not in ("", "0")
+
     def prebuild(nf):
         srcs, cpu, extra = build_args(nf[1])
-        return vlib.build_harness(ctx, "cpu-" + nf[0], "h_cpu.c", srcs, cpu=cpu, extra=extra, ldflags=["-lcrypto"])
+        exe = None
+        if not forced_bb:
+            exe, _ = vlib.build_harness(ctx, "cpu-" + nf[0], "h_cpu.c", srcs, cpu=cpu, extra=extra, ldflags=["-lcrypto"])
+        if exe is None:
+            # what vlib.build_component will fall back to (black-box mode): compile that in parallel as well
+            vlib.build_harness(ctx, "cpu-" + nf[0], "h_cpu.c", srcs + BB["bb_srcs"], cpu=cpu, extra=extra + ["-DHC_BLACKBOX"],
+                               ldflags=["-lcrypto"])
     with cf.ThreadPoolExecutor(max_workers=len(BUILDS)) as ex:
         list(ex.map(prebuild, BUILDS))
     vlib.proof_audit(ctx, MODULES)
